@@ -304,3 +304,133 @@ POSITION_TCS = (5, 6, 7, 8, 9, 10, 11, 12, 13, 14, 15, 16, 17, 18, 20, 21, 22)
 
 NUCP_OF_TC = {5: 9, 6: 8, 7: 7, 8: 6, 9: 9, 10: 8, 11: 7, 12: 6, 13: 5, 14: 4, 15: 3, 16: 2, 17: 1, 18: 0,
               20: 9, 21: 8, 22: 0}
+
+
+# ----------------------------------------------------------------------------- velocity (C09)
+# TC19 ME bits: 6-8 subtype, 14 E/W sign | heading status, 15-24 E/W velocity | heading,
+# 25 N/S sign | airspeed type, 26-35 N/S velocity | airspeed, 36 VR source, 37 VR sign,
+# 38-46 vertical rate, 49 GNSS-baro sign, 50-56 GNSS-baro difference
+from vc.api import ufun
+
+
+def vertical_rate(me):
+    n = F.field(me, 38, 46)
+    sign = -1 if F.bit(me, 37) == 1 else 1
+    vs = sign * (n - 1) * 64
+    return None if n == 0 else vs
+
+
+def vr_source(me):
+    return "GNSS" if F.bit(me, 36) == 0 else "BARO"
+
+
+def tc19_me(msg):
+    bits = need112(msg)
+    if F.tc_of(bits) != 19:
+        raise RuntimeError("TC19 expected")
+    return F.me(bits)
+
+
+def airborne_velocity(msg, source=False):
+    """subtypes 1-4 (the contract does not constrain the reserved subtypes 0, 5, 6, 7)"""
+    me = tc19_me(msg)
+    st = F.field(me, 6, 8)
+    vs = vertical_rate(me)
+    if st == 1 or st == 2:
+        n_ew = F.field(me, 15, 24)
+        n_ns = F.field(me, 26, 35)
+        if n_ew == 0 or n_ns == 0:
+            return None
+        mult = 4 if st == 2 else 1
+        vx = (n_ew - 1) * mult * (-1 if F.bit(me, 14) == 1 else 1)      # towards east
+        vy = (n_ns - 1) * mult * (-1 if F.bit(me, 25) == 1 else 1)      # towards north
+        spd = int(ufun("sqrt", vy * vy + vx * vx))
+        a = ufun("atan2", vx, vy) * 180 / PI()
+        trk = a if a >= 0 else a + 360
+        if source:
+            return spd, trk, vs, "GS", "TRUE_NORTH", vr_source(me)
+        return spd, trk, vs, "GS"
+    n_as = F.field(me, 26, 35)
+    mult = 4 if st == 4 else 1
+    hdg = None if F.bit(me, 14) == 0 else F.field(me, 15, 24) * 360 / 1024
+    aspd = None if n_as == 0 else (n_as - 1) * mult
+    kind = "IAS" if F.bit(me, 25) == 0 else "TAS"
+    if source:
+        return aspd, hdg, vs, kind, "MAGNETIC_NORTH", vr_source(me)
+    return aspd, hdg, vs, kind
+
+
+def PI():
+    from vc.api import pi_const
+    return pi_const()
+
+
+def altitude_diff(msg):
+    me = tc19_me(msg)
+    n = F.field(me, 50, 56)
+    sign = -1 if F.bit(me, 49) == 1 else 1
+    if n == 0:
+        return None
+    return sign * (n - 1) * 25
+
+
+def movement_speed(mov):
+    """DO-260B table 2-13 surface movement: lower bound of the quantisation band in knots;
+    None for 'no information' (0) and the reserved codes 125-127"""
+    spd = None
+    if mov == 1:
+        spd = 0
+    if 2 <= mov and mov <= 8:
+        spd = 0.125 + (mov - 2) * 0.125
+    if 9 <= mov and mov <= 12:
+        spd = 1 + (mov - 9) * 0.25
+    if 13 <= mov and mov <= 38:
+        spd = 2 + (mov - 13) * 0.5
+    if 39 <= mov and mov <= 93:
+        spd = 15 + (mov - 39) * 1
+    if 94 <= mov and mov <= 108:
+        spd = 70 + (mov - 94) * 2
+    if 109 <= mov and mov <= 123:
+        spd = 100 + (mov - 109) * 5
+    if mov == 124:
+        spd = 175
+    return spd
+
+
+def surface_velocity(msg, source=False):
+    bits = need112(msg)
+    tc = F.tc_of(bits)
+    if tc is None or tc < 5 or tc > 8:
+        raise RuntimeError("surface position message expected")
+    me = F.me(bits)
+    spd = movement_speed(F.field(me, 6, 12))
+    trk = None if F.bit(me, 13) == 0 else F.field(me, 14, 20) * 360 / 128
+    if source:
+        return spd, trk, 0, "GS", "TRUE_NORTH", None
+    return spd, trk, 0, "GS"
+
+
+from vc.api import opaque, NATIVE_OPAQUE
+
+
+def airborne_velocity_opaque(msg, source=False):
+    """dispatcher proofs: 'whatever bds09.airborne_velocity returns for these arguments'"""
+    return opaque("bds09.airborne_velocity", msg, source)
+
+
+def surface_velocity_opaque(msg, source=False):
+    return opaque("bds06.surface_velocity", msg, source)
+
+
+def _native_av(msg, source):
+    from vc.api import repo
+    return repo("pyModeS.decoder.bds.bds09").airborne_velocity(msg, source)
+
+
+def _native_sv(msg, source):
+    from vc.api import repo
+    return repo("pyModeS.decoder.bds.bds06").surface_velocity(msg, source)
+
+
+NATIVE_OPAQUE["bds09.airborne_velocity"] = _native_av
+NATIVE_OPAQUE["bds06.surface_velocity"] = _native_sv
